@@ -163,7 +163,7 @@ def parse_printed(out, tag):
 
 
 class TLCResult:
-    def __init__(self, rc, out, wall):
+    def __init__(self, rc, out, wall, simulate=False):
         self.rc = rc
         self.out = out
         self.wall = wall
@@ -172,7 +172,11 @@ class TLCResult:
         self.distinct = int(m.group(2).replace(",", "")) if m else 0
         m = re.search(r"depth of the complete state graph search is (\d+)", out)
         self.depth = int(m.group(1)) if m else 0
-        self.completed = "Model checking completed. No error has been found." in out
+        self.completed = "Model checking completed. No error has been found." in out or (
+            simulate and "Error:" not in out and rc == 0)
+        if simulate and not self.generated:
+            m = re.search(r"The number of states generated: (\d+)", out)
+            self.generated = self.distinct = int(m.group(1)) if m else 0
         m = re.search(r"Invariant (\S+) is violated", out)
         self.violated = m.group(1) if m else None
         if not self.violated:
@@ -226,7 +230,7 @@ def tlc(module, cfg, workers=1, timeout=600, env=None, heap="4g", simulate=None,
     out = "\n".join(l for l in out.splitlines()
                     if not re.match(r"^(Parsing file|Semantic processing|Linting of module|Picked up JAVA)", l))
     shutil.rmtree(metadir, ignore_errors=True)
-    return TLCResult(rc, out, time.time() - t0)
+    return TLCResult(rc, out, time.time() - t0, simulate=bool(simulate))
 
 
 def mc(ctx, module, cfg, workers=8, timeout=900, must_cover=(), **kw):
